@@ -50,7 +50,7 @@ META = {
             "(preprocessor model) and coq/C17/Expand.v (two soundness lemmas).",
 }
 
-MEM_LIMIT_MB = 6144        # per run: plain build RLIMIT_AS, sanitised build hard_rss_limit_mb (ASan needs a huge address space)
+MEM_LIMIT_MB = 3072        # per run: plain build RLIMIT_AS, sanitised build hard_rss_limit_mb (ASan needs a huge address space)
 SAN_ENV = {"ASAN_OPTIONS": "exitcode=97:detect_leaks=0:allocator_may_return_null=1:hard_rss_limit_mb=%d" % MEM_LIMIT_MB,
            "UBSAN_OPTIONS": "exitcode=96:print_stacktrace=0"}
 MAX_BYTES = 8192
@@ -59,8 +59,9 @@ BIG_STACK = 1 << 30       # deep-nesting stream: stack-size limit raised so that
 
 
 # ------------------------------------------------------------------ running the implementation
-def run_case(impl_dir, data, mode="parse", args=(), big_stack=False, cpu=10, wall=60):
-    """One run of `main` on the byte string `data`. Returns rc (negative = signal), CPU seconds, stdout/stderr."""
+def run_case(impl_dir, data, mode="parse", args=(), big_stack=False, cpu=10, wall=60, stack=None):
+    """One run of `main` on the byte string `data`. Returns rc (negative = signal), CPU seconds, stdout/stderr.
+    big_stack: stack-size limit 1 GiB; stack=<bytes>: that stack-size limit; default: the inherited one (8 MiB)."""
     d = tempfile.mkdtemp(prefix="c10run-", dir=common.SCRATCH_ROOT)
     try:
         try:
@@ -76,7 +77,9 @@ def run_case(impl_dir, data, mode="parse", args=(), big_stack=False, cpu=10, wal
             env["CB_VERIF_PARSE_ONLY"] = "1"
         # CPU limit (hang -> SIGXCPU) and output-size limit (an endless diagnostic loop must not fill the disk -> SIGXFSZ)
         cmd = ["prlimit", "--cpu=%d" % cpu, "--fsize=%d" % (32 << 20)]
-        if big_stack:
+        if stack:
+            cmd.append("--stack=%d" % stack)
+        elif big_stack:
             cmd.append("--stack=%d" % BIG_STACK)
         if not impl_dir.rstrip("/").endswith("asan"):
             cmd.append("--as=%d" % (MEM_LIMIT_MB << 20))
@@ -124,6 +127,8 @@ def signature(r, bound=None):
     if m:
         msg = re.sub(r"0x[0-9a-f]+|-?\d+", "N", m.group(4))
         return "ubsan|%s|%s" % (os.path.basename(m.group(1)), msg)
+    if "AddressSanitizer: hard rss limit exhausted" in err:
+        return "memory|rss-limit"
     m = _AS.search(err)
     if m:
         f = _FR.search(err)
@@ -245,63 +250,558 @@ def soup(rng):
                           for _ in range(rng.randint(0, rng.choice([16, 200, 2000, MAX_BYTES]))))
 
 
-# ------------------------------------------------------------------ nesting amplification
-def amp(kind, d):
-    def W(body):
-        return ("void main() {\n int x = 1; int[3] a = [1,2,3];\n %s\n}\n" % body).encode()
-    table = {
-        "paren": lambda: W("println(" + "(" * d + "1" + ")" * d + ");"),
-        "unary-minus": lambda: W("println(" + "-(" * d + "1" + ")" * d + ");"),
-        "not": lambda: W("println(" + "!" * d + "x);"),
-        "tilde": lambda: W("println(" + "~" * d + "x);"),
-        "deref": lambda: W("println(" + "*" * d + "x);"),
-        "block": lambda: W("{" * d + " x = 2; " + "}" * d),
-        "if": lambda: W("if (x) { " * d + "x = 2;" + " }" * d),
-        "while": lambda: W("while (x) { " * d + "x = 0;" + " }" * d),
-        "else-if": lambda: W("if (x == 0) { x = 1; }" + " else if (x == 0) { x = 1; }" * d),
-        "ternary-right": lambda: W("x = " + "x ? 1 : " * d + "0;"),
-        "ternary-mid": lambda: W("x = " + "x ? " * d + "1" + " : 0" * d + ";"),
-        "qmarks": lambda: W("x = x" + "?" * d + ";"),
-        "binary-right": lambda: W("x = " + "1 + (" * d + "1" + ")" * d + ";"),
-        "binary-flat": lambda: W("x = 1" + " + 1" * d + ";"),
-        "call": lambda: ("int f(int v) { return v; }\nvoid main() { println(" + "f(" * d + "1" + ")" * d + "); }\n").encode(),
-        "index": lambda: W("println(a" + "[0" * d + "]" * d + ");"),
-        "index-chain": lambda: W("println(a" + "[0]" * d + ");"),
-        "member-chain": lambda: W("println(x" + ".m" * d + ");"),
-        "arrow-chain": lambda: W("println(x" + "->m" * d + ");"),
-        "array-lit": lambda: W("int[1] b = " + "[" * d + "1" + "]" * d + ";"),
-        "generic-type": lambda: ("struct Box<T> { T v; };\nvoid main() { " + "Box<" * d + "int" + ">" * d + " b; }\n").encode(),
-        "generic-call": lambda: W("println(f" + "<Box" * d + ">" * d + "(1));"),
-        "lt-chain": lambda: W("x = x" + " < x" * d + ";"),
-        "pointer-type": lambda: W("int" + "*" * d + " p;"),
-        "array-type": lambda: W("int" + "[2]" * d + " q;"),
-        "comments": lambda: W("/* c */ " * d + "x = 1;"),
-        "line-comments": lambda: W("// c\n" * d + "x = 1;"),
-        "open-paren": lambda: W("println(" + "(" * d),
-        "open-brace": lambda: W("{" * d),
-        "open-bracket": lambda: W("x = " + "[" * d),
-        "interp": lambda: W('println("' + "{x}" * d + '");'),
-        "interp-nest": lambda: W('println("' + "{" * d + "x" + "}" * d + '");'),
-        "string-long": lambda: W('println("' + "a" * d + '");'),
-        "ident-long": lambda: W("int " + "a" * d + " = 1;"),
-        "number-long": lambda: W("x = " + "9" * d + ";"),
-        "cast": lambda: W("x = " + "(int)" * d + "x;"),
-        "lambda": lambda: W("x = " + "func int(int v) { return " * d + "v" + "; }" * d + ";"),
-        "struct-lit": lambda: ("struct S { int v; };\nvoid main() { S s = " + "{v: " * d + "1" + "}" * d + "; }\n").encode(),
-        "match": lambda: W("match (x) { " * d + "_ => { x = 1; }" + " }" * d),
-        "switch": lambda: W("switch (x) { case (1) { " * d + "x = 1;" + " } }" * d),
-        "defines": lambda: ("#define A0 1\n" + "".join("#define A%d A%d\n" % (i + 1, i) for i in range(d))
-                            + "void main() { println(A%d); }\n" % d).encode(),
-        "ifdefs": lambda: ("#ifdef X\n" * d + "#endif\n" * d + "void main() { }\n").encode(),
-    }
-    return table[kind]()
+# ------------------------------------------------------------------ nesting / length amplification
+# One entry per self-recursive or mutually recursive production of the parser (expression_parser.cpp, primary_expression_parser.cpp,
+# statement_parser.cpp, declaration/struct/enum/interface/union/type parsers), per loop of lexer and preprocessor, and (names "x-...")
+# per recursive path of the evaluator / executor.  Every entry is run at depths 10^3, 10^4, 10^5 on the sanitised AND the plain build
+# with the DEFAULT 8 MiB stack: the parser's stack guard (RecursiveParser::checkNesting, cb_stack_guard) and the evaluator's
+# ("Stack limit reached") have to turn each of them into exit 1 + diagnostic.
+PRE = ("struct Box<T> { T v; };\nstruct S { int v; };\nstruct N { N* n; int v; };\nenum E { A, B };\n"
+       "int f(int v) { return v; }\nint g<T>(T v) { return 1; }\n")
 
 
-AMP_KINDS = ["paren", "unary-minus", "not", "tilde", "deref", "block", "if", "while", "else-if", "ternary-right", "ternary-mid",
-             "qmarks", "binary-right", "binary-flat", "call", "index", "index-chain", "member-chain", "arrow-chain", "array-lit",
-             "generic-type", "generic-call", "lt-chain", "pointer-type", "array-type", "comments", "line-comments", "open-paren",
-             "open-brace", "open-bracket", "interp", "interp-nest", "string-long", "ident-long", "number-long", "cast", "lambda",
-             "struct-lit", "match", "switch", "defines", "ifdefs"]
+PER_LINE = 40
+
+
+def R(u, d):
+    """d copies of u, a line break after every PER_LINE copies: lines stay short (known finding C10-source-line-copy-quadratic:
+    every AST node stores a copy of its whole source line, so ONE long line costs nodes x bytes)"""
+    if ONE_LINE[0]:
+        return u * d
+    q, r = divmod(d, PER_LINE)
+    return (u * PER_LINE + "\n") * q + u * r
+
+
+def Rr(u, d):
+    return u * d
+
+
+ONE_LINE = [False]
+
+
+def W(body, pre=""):
+    return (pre + "void main() {\n int x = 1; int[3] a = [1,2,3]; int* p = &x;\n %s\n}\n" % body).encode()
+
+
+def T(body):
+    """top level text"""
+    return (body + "\nvoid main() { }\n").encode()
+
+
+BINOPS = [("or", "||"), ("and", "&&"), ("bor", "|"), ("xor", "^"), ("band", "&"), ("eq", "=="), ("ne", "!="), ("lt", "<"), ("le", "<="),
+          ("gt", ">"), ("ge", ">="), ("shl", "<<"), ("shr", ">>"), ("add", "+"), ("sub", "-"), ("mul", "*"), ("div", "/"), ("mod", "%")]
+
+AMP = {
+    # ---- expression ladder: self-recursive prefix productions of parseUnary
+    "paren": lambda d: W("println(" + R("(", d) + "1" + R(")", d) + ");"),
+    "unary-minus-paren": lambda d: W("println(" + R("-(", d) + "1" + R(")", d) + ");"),
+    "minus": lambda d: W("println(" + R("- ", d) + "x);"),
+    "not": lambda d: W("println(" + R("!", d) + "x);"),
+    "tilde": lambda d: W("println(" + R("~", d) + "x);"),
+    "deref": lambda d: W("println(" + R("*", d) + "x);"),
+    "addr": lambda d: W("println(" + R("& ", d) + "x);"),
+    "try": lambda d: W("int y = " + R("try ", d) + "1;"),
+    "checked": lambda d: W("int y = " + R("checked ", d) + "1;"),
+    "await": lambda d: W("int y = " + R("await ", d) + "x;"),
+    "try-checked-await": lambda d: W("int y = " + R("try checked await ", (d // 3 + 1)) + "x;"),
+    "prefix-mix": lambda d: W("int y = " + R("! - ~ * & try checked await ", (d // 8 + 1)) + "x;"),
+    "pre-incr": lambda d: W(R("++ ", d) + "x;"),
+    "cast": lambda d: W("x = " + R("(int)", d) + "x;"),
+    "cast-long-int": lambda d: W("x = " + R("(long)(int)", (d // 2 + 1)) + "x;"),
+    "cast-paren": lambda d: W("x = " + R("(int)(", d) + "x" + R(")", d) + ";"),
+    "cast-generic": lambda d: W("x = " + R("(Box<int>)", d) + "x;", PRE),
+    # ---- ternary / assignment (right recursion of parseTernary / parseAssignment)
+    "ternary-right": lambda d: W("x = " + R("x ? 1 : ", d) + "0;"),
+    "ternary-mid": lambda d: W("x = " + R("x ? ", d) + "1" + R(" : 0", d) + ";"),
+    "ternary-open": lambda d: W("x = " + R("x ? ", d)),
+    "qmarks": lambda d: W("x = x" + R("?", d) + ";"),
+    "assign-chain": lambda d: W(R("x = ", d) + "1;"),
+    "compound-assign-chain": lambda d: W(R("x += ", d) + "1;"),
+    "member-assign-chain": lambda d: W("S s; " + R("s.v = ", d) + "1;", PRE),
+    "index-assign-chain": lambda d: W(R("a[0] = ", d) + "1;"),
+    # ---- binary levels
+    "binary-right": lambda d: W("x = " + R("1 + (", d) + "1" + R(")", d) + ";"),
+    "binary-right-mul": lambda d: W("x = " + R("1 * (", d) + "1" + R(")", d) + ";"),
+    "binary-right-and": lambda d: W("x = " + R("x && (", d) + "1" + R(")", d) + ";"),
+    "lt-chain": lambda d: W("x = x" + R(" < x", d) + ";"),
+    "lt-gt-chain": lambda d: W("x = x" + R(" < x > x", (d // 2 + 1)) + ";"),
+    "generic-call": lambda d: W("println(f" + R("<Box", d) + R(">", d) + "(1));"),
+    "generic-call-nest": lambda d: W("println(" + R("g<int>(", d) + "1" + R(")", d) + ");", PRE),
+    "generic-call-open": lambda d: W("println(f" + R("<Box", d)),
+    # ---- postfix / primary
+    "call": lambda d: W("println(" + R("f(", d) + "1" + R(")", d) + ");", PRE),
+    "call-args-wide": lambda d: W("println(f(" + R("1, ", d) + "1));", PRE),
+    "call-chain": lambda d: W("println(f(1)" + R("(1)", d) + ");", PRE),
+    "method-chain": lambda d: W("println(x" + R(".m()", d) + ");"),
+    "method-nest": lambda d: W("println(" + R("x.m(", d) + "1" + R(")", d) + ");"),
+    "arrow-method-nest": lambda d: W("println(" + R("p->m(", d) + "1" + R(")", d) + ");"),
+    "funcptr-call-chain": lambda d: W("println(*p" + R("(1)", d) + ");"),
+    "funcptr-call-nest": lambda d: W("println(" + R("*p(", d) + "1" + R(")", d) + ");"),
+    "enum-construct": lambda d: W("println(" + R("E::A(", d) + "1" + R(")", d) + ");", PRE),
+    "generic-enum-construct": lambda d: W("println(" + R("Option<int>::Some(", d) + "1" + R(")", d) + ");"),
+    "index": lambda d: W("println(a" + R("[a", d) + "[0]" + R("]", d) + ");"),
+    "index-chain": lambda d: W("println(a" + R("[0]", d) + ");"),
+    "member-chain": lambda d: W("println(x" + R(".m", d) + ");"),
+    "arrow-chain": lambda d: W("println(x" + R("->m", d) + ");"),
+    "member-index-chain": lambda d: W("println(x" + R(".m[0]", d) + ");"),
+    "array-lit": lambda d: W("int[1] b = " + R("[", d) + "1" + R("]", d) + ";"),
+    "array-lit-wide": lambda d: W("int[1] b = [" + R("1, ", d) + "1];"),
+    "array-lit-expr": lambda d: W("println(" + R("[", d) + "1" + R("]", d) + ");"),
+    "array-struct-lit": lambda d: W("S[1] b = " + R("[{v: ", d) + "1" + R("}]", d) + ";", PRE),
+    "struct-lit": lambda d: W("S s = " + R("{v: ", d) + "1" + R("}", d) + ";", PRE),
+    "struct-lit-pos": lambda d: W("S s = " + R("{", d) + "1" + R("}", d) + ";", PRE),
+    "struct-lit-wide": lambda d: W("S s = {" + R("v: 1, ", d) + "v: 1};", PRE),
+    "struct-lit-expr": lambda d: W("println(" + R("{v: ", d) + "1" + R("}", d) + ");", PRE),
+    "lambda": lambda d: W("int* q = " + R("int func(int v) { return ", d) + "v" + R("; }", d) + ";"),
+    "lambda-call": lambda d: W("x = " + R("int func(int v) { return ", d) + "v" + R("; }(1)", d) + ";"),
+    "lambda-params-wide": lambda d: W("int* q = int func(" + R("int v, ", d) + "int w) { return 1; };"),
+    "lambda-body-blocks": lambda d: W("int* q = int func(int v) " + R("{ ", d) + "return v;" + R(" }", d) + ";"),
+    "async-lambda": lambda d: W("int* q = " + R("async int func(int v) { return ", d) + "v" + R("; }", d) + ";"),
+    "sizeof": lambda d: W("x = " + R("sizeof(", d) + "x" + R(")", d) + ";"),
+    "sizeof-type": lambda d: W("x = sizeof(" + R("Box<", d) + "int" + R(" >", d) + ");", PRE),
+    "new-nest": lambda d: W("int* q = " + R("new int[", d) + "1" + R("]", d) + ";"),
+    "new-generic": lambda d: W("int* q = new " + R("Box<", d) + "int" + R(">", d) + ";", PRE),
+    "delete-chain": lambda d: W(R("delete ", d) + "p;"),
+    "interp": lambda d: W('println("' + Rr("{x}", d) + '");'),
+    "interp-nest": lambda d: W('println("' + Rr("{", d) + "x" + Rr("}", d) + '");'),
+    "interp-paren": lambda d: W('println("{' + Rr("(", d) + "x" + Rr(")", d) + '}");'),
+    "interp-unary": lambda d: W('println("{' + Rr("!", d) + 'x}");'),
+    "interp-try": lambda d: W('println("{' + Rr("try ", d) + 'x}");'),
+    "interp-fmt": lambda d: W('println("' + Rr("{x:5}", d) + '");'),
+    "interp-escaped": lambda d: W('println("' + Rr("{{", d) + "x" + Rr("}}", d) + '");'),
+    "string-concat": lambda d: W('string s = "a"' + R(' + "a"', d) + ";"),
+    "println-args-wide": lambda d: W("println(" + R("1, ", d) + "1);"),
+    "print-args-wide": lambda d: W("print(" + R("1, ", d) + "1);"),
+    "printf-args-wide": lambda d: W('printf("' + Rr("%d", d) + '"' + Rr(", 1", d) + ");"),
+    # ---- types (parseType recursion)
+    "generic-type": lambda d: W(R("Box<", d) + "int" + R(">", d) + " b;", PRE),
+    "generic-type-spaced": lambda d: W(R("Box<", d) + "int" + R(" >", d) + " b;", PRE),
+    "generic-type-open": lambda d: W(R("Box<", d), PRE),
+    "generic-type-2": lambda d: W(R("Result<", d) + "int" + R(", int>", d) + " b;"),
+    "generic-type-2r": lambda d: W(R("Result<int, ", d) + "int" + R(">", d) + " b;"),
+    "option-type": lambda d: W(R("Option<", d) + "int" + R(">", d) + " b;"),
+    "generic-param-type": lambda d: T(PRE + "int h(" + R("Box<", d) + "int" + R(">", d) + " b) { return 1; }"),
+    "generic-return-type": lambda d: T(PRE + R("Box<", d) + "int" + R(">", d) + " h() { }"),
+    "generic-member-type": lambda d: T(PRE + "struct M { " + R("Box<", d) + "int" + R(">", d) + " b; };"),
+    "generic-global-type": lambda d: T(PRE + R("Box<", d) + "int" + R(">", d) + " gb;"),
+    "generic-typedef-type": lambda d: T(PRE + "typedef " + R("Box<", d) + "int" + R(">", d) + " TB;"),
+    "generic-impl-type": lambda d: T(PRE + "impl " + R("Box<", d) + "int" + R(">", d) + " { int m() { return 1; } };"),
+    "generic-enum-assoc-type": lambda d: T(PRE + "enum Q { A(" + R("Box<", d) + "int" + R(">", d) + "), B };"),
+    "generic-lambda-type": lambda d: W("int* q = " + R("Box<", d) + "int" + R(">", d) + " func() { };", PRE),
+    "pointer-type": lambda d: W("int" + R("*", d) + " q;"),
+    "array-type": lambda d: W("int" + R("[2]", d) + " q;"),
+    "array-type-expr": lambda d: W("int[" + R("(", d) + "2" + R(")", d) + "] q;"),
+    "const-chain": lambda d: W(R("const ", d) + "int q = 1;"),
+    "unsigned-chain": lambda d: W(R("unsigned ", d) + "int q = 1;"),
+    "static-chain": lambda d: W(R("static ", d) + "int q = 1;"),
+    "ref-type": lambda d: W("int" + R("&", d) + " q = x;"),
+    "funcptr-type": lambda d: T("typedef int (*F)(" + R("int, ", d) + "int);"),
+    "typedef-chain": lambda d: T("typedef int T0;\n" + "".join("typedef T%d T%d;\n" % (i, i + 1) for i in range(d)) + "T%d gq = 1;" % d),
+    "typedef-array-chain": lambda d: T("typedef int[2] T0;\n" + "".join("typedef T%d T%d;\n" % (i, i + 1) for i in range(d)) + "T%d gq;" % d),
+    "union-wide": lambda d: T("typedef U = " + R("1 | ", d) + "2;"),
+    "union-types-wide": lambda d: T("typedef U = " + R("int | ", d) + "string;"),
+    "union-array-nest": lambda d: T("typedef U = int" + R("[2]", d) + " | string;"),
+    # ---- declarations
+    "struct-members-wide": lambda d: T("struct M { " + "".join("int m%d; " % i for i in range(d)) + "};"),
+    "struct-generic-params-wide": lambda d: T("struct M<" + "".join("T%d, " % i for i in range(d)) + "T> { int v; };"),
+    "struct-self-nest": lambda d: T("".join("struct M%d { %s int v; };\n" % (i, ("M%d m;" % (i - 1)) if i else "") for i in range(d))),
+    "struct-in-struct": lambda d: T(R("struct M { ", d) + "int v;" + R(" };", d)),
+    "enum-members-wide": lambda d: T("enum Q { " + "".join("A%d, " % i for i in range(d)) + "Z };"),
+    "enum-generic-assoc-wide": lambda d: T("enum Q<T> { " + "".join("A%d(T), " % i for i in range(d)) + "Z };"),
+    "interface-methods-wide": lambda d: T("interface I { " + "".join("int m%d(int a); " % i for i in range(d)) + "};"),
+    "impl-methods-wide": lambda d: T("struct M { int v; };\ninterface I { " + "".join("int m%d();\n" % i for i in range(d)) + "}\nimpl I for M { "
+                                       + "".join("int m%d() { return 1; }\n" % i for i in range(d)) + "}"),
+    "impl-method-blocks": lambda d: T("struct M { int v; };\ninterface I { int m(); }\nimpl I for M { int m() " + R("{ ", d) + "return 1;" + R(" }", d) + " }"),
+    "impl-ctor-blocks": lambda d: T("struct M { int v; };\nimpl M { self() " + R("{ ", d) + "self.v = 1;" + R(" }", d) + " ~self() " + R("{ ", d) + R(" }", d) + " };"),
+    "impl-static-expr": lambda d: T("struct M { int v; };\nimpl M { static int c = " + R("(", d) + "1" + R(")", d) + "; };"),
+    "params-wide": lambda d: T("int h(" + R("int a, ", d) + "int b) { return 1; }"),
+    "param-default-expr": lambda d: T("int h(int a = " + R("(", d) + "1" + R(")", d) + ") { return a; }"),
+    "generic-params-wide": lambda d: T("int h<" + "".join("T%d, " % i for i in range(d)) + "T>(T v) { return 1; }"),
+    "functions-many": lambda d: T("".join("int h%d() { return 1; }\n" % i for i in range(d))),
+    "globals-many": lambda d: T("".join("int g%d = 1;\n" % i for i in range(d))),
+    "global-init-expr": lambda d: T("int gq = " + R("(", d) + "1" + R(")", d) + ";"),
+    "global-array-lit": lambda d: T("int[1] gq = " + R("[", d) + "1" + R("]", d) + ";"),
+    "var-list-wide": lambda d: W("int " + "".join("v%d = 1, " % i for i in range(d)) + "w = 1;"),
+    "func-in-func": lambda d: W(R("int h() { ", d) + "return 1;" + R(" }", d)),
+    "foreign-wide": lambda d: T("use foreign.m { " + R("int h(int a); ", d) + "}"),
+    "export-chain": lambda d: T(R("export ", d) + "int h() { return 1; }"),
+    "imports-many": lambda d: T(R("import stdlib.std.nothing;\n", d)),
+    "async-fn-blocks": lambda d: T("async int h() " + R("{ ", d) + "return 1;" + R(" }", d)),
+    # ---- statements (parseStatement recursion)
+    "block": lambda d: W(R("{", d) + " x = 2; " + R("}", d)),
+    "if": lambda d: W(R("if (x) { ", d) + "x = 2;" + R(" }", d)),
+    "if-nobrace": lambda d: W(R("if (x) ", d) + "x = 2;"),
+    "if-else-nest": lambda d: W(R("if (x) { x = 1; } else { ", d) + "x = 2;" + R(" }", d)),
+    "else-if": lambda d: W("if (x == 0) { x = 1; }" + R(" else if (x == 0) { x = 1; }", d)),
+    "if-cond-expr": lambda d: W("if (" + R("(", d) + "x" + R(")", d) + ") { }"),
+    "while": lambda d: W(R("while (x) { ", d) + "x = 0;" + R(" }", d)),
+    "while-nobrace": lambda d: W(R("while (x) ", d) + "x = 0;"),
+    "for": lambda d: W(R("for (int i = 0; i < 1; i++) { ", d) + "x = 0;" + R(" }", d)),
+    "for-nobrace": lambda d: W(R("for (x = 0; x < 1; x++) ", d) + "x = 0;"),
+    "for-init-nest": lambda d: W(R("for (", d) + "x = 0;" + R(";) { }", d)),
+    "for-init-blocks": lambda d: W("for (" + R("{", d) + R("}", d) + " x < 1; x++) { }"),
+    "defer": lambda d: W(R("defer ", d) + "x = 1;"),
+    "defer-blocks": lambda d: W(R("defer { ", d) + "x = 1;" + R(" }", d)),
+    "return-expr": lambda d: W("return " + R("(", d) + "1" + R(")", d) + ";"),
+    "assert-expr": lambda d: W("assert(" + R("(", d) + "1" + R(")", d) + ");"),
+    "yield-expr": lambda d: W("yield " + R("(", d) + "1" + R(")", d) + ";"),
+    "switch": lambda d: W(R("switch (x) { case (1) { ", d) + "x = 1;" + R(" } }", d)),
+    "switch-else": lambda d: W(R("switch (x) { case (1) { } else { ", d) + "x = 1;" + R(" } }", d)),
+    "switch-cases-wide": lambda d: W("switch (x) { " + R("case (1) { x = 1; } ", d) + "}"),
+    "switch-case-values-wide": lambda d: W("switch (x) { case (" + R("1 | ", d) + "2) { x = 1; } }"),
+    "switch-case-range": lambda d: W("switch (x) { case (" + R("1 ... ", d) + "2) { x = 1; } }"),
+    "switch-case-expr": lambda d: W("switch (" + R("(", d) + "x" + R(")", d) + ") { case (" + R("(", d) + "1" + R(")", d) + ") { } }"),
+    "match": lambda d: W(R("match (x) { _ => { ", d) + "x = 1;" + R(" } }", d)),
+    "match-arm-expr": lambda d: W("match (x) { _ => " + R("(", d) + "1" + R(")", d) + " }"),
+    "match-arm-match": lambda d: W(R("match (x) { Some(v) => { ", d) + "x = 1;" + R(" } }", d)),
+    "match-arms-wide": lambda d: W("match (x) { " + R("Some(v) => { x = 1; } ", d) + "}"),
+    "match-scrutinee-expr": lambda d: W("match (" + R("(", d) + "x" + R(")", d) + ") { _ => { } }"),
+    "statements-many": lambda d: W(R("x = 1; ", d)),
+    "empty-statements": lambda d: W(R(";", d)),
+    "decls-many": lambda d: W("".join("int v%d = 1; " % i for i in range(d))),
+    "array-decl-init-nest": lambda d: W("int[2][2] m = " + R("[", d) + "1" + R("]", d) + ";"),
+    "array-decl-size-expr": lambda d: W("int[" + R("1+", d) + "1] q;"),
+    # ---- truncated / unbalanced
+    "open-paren": lambda d: W("println(" + R("(", d)),
+    "open-brace": lambda d: W(R("{", d)),
+    "open-bracket": lambda d: W("x = " + R("[", d)),
+    "open-call": lambda d: W("x = " + R("f(", d)),
+    "open-index": lambda d: W("x = a" + R("[a", d)),
+    "open-struct-lit": lambda d: W("S s = " + R("{v: ", d), PRE),
+    "open-if": lambda d: W(R("if (x) { ", d)),
+    "open-lambda": lambda d: W("int* q = " + R("int func(int v) { return ", d)),
+    "close-paren": lambda d: W("println(1" + R(")", d) + ";"),
+    "close-brace": lambda d: W(R("}", d)),
+    # ---- lexer / preprocessor
+    "comments": lambda d: W(R("/* c */ ", d) + "x = 1;"),
+    "comment-long": lambda d: W("/* " + R("c ", d) + "*/ x = 1;"),
+    "comment-nested-open": lambda d: W(R("/* ", d) + "x = 1;"),
+    "comment-open": lambda d: W("x = 1; /* " + Rr("c", d)),
+    "line-comments": lambda d: W(Rr("// c\n", d) + "x = 1;"),
+    "line-comment-long": lambda d: W("// " + Rr("c", d) + "\nx = 1;"),
+    "newlines": lambda d: W(Rr("\n", d) + "x = 1;"),
+    "spaces": lambda d: W(Rr(" ", d) + "x = 1;"),
+    "string-long": lambda d: W('println("' + Rr("a", d) + '");'),
+    "string-open": lambda d: W('println("' + Rr("a", d)),
+    "string-escapes": lambda d: W('println("' + Rr("\\n", d) + '");'),
+    "char-escapes": lambda d: W("char c = " + R("'\\n' + ", d) + "'a';"),
+    "ident-long": lambda d: W("int " + Rr("a", d) + " = 1;"),
+    "number-long": lambda d: W("x = " + Rr("9", d) + ";"),
+    "float-long": lambda d: W("double z = 1." + Rr("9", d) + ";"),
+    "exp-long": lambda d: W("double z = 1e" + Rr("9", d) + ";"),
+    "hex-long": lambda d: W("x = 0x" + Rr("F", d) + ";"),
+    "dots": lambda d: W("x = x" + Rr(".", d) + ";"),
+    "defines": lambda d: ("#define A0 1\n" + "".join("#define A%d A%d\n" % (i + 1, i) for i in range(d))
+                          + "void main() { println(A%d); }\n" % d).encode(),
+    "defines-wide": lambda d: ("".join("#define A%d %d\n" % (i, i) for i in range(d)) + "void main() { println(A0); }\n").encode(),
+    "define-uses-wide": lambda d: ("#define A 1\nvoid main() { println(" + R("A + ", d) + "A); }\n").encode(),
+    "define-selfref": lambda d: ("#define A A A\nvoid main() { int A = 1; " + R("println(A); ", min(d, 50)) + "}\n").encode(),
+    "define-mutual": lambda d: ("#define A B B\n#define B A A\nvoid main() { println(" + R("A ", min(d, 50)) + "); }\n").encode(),
+    "define-fn-nest": lambda d: ("#define F(x) (x + 1)\nvoid main() { println(" + Rr("F(", d) + "1" + Rr(")", d) + "); }\n").encode(),
+    "define-fn-args-wide": lambda d: ("#define F(x) x\nvoid main() { println(F(" + Rr("1, ", d) + "1)); }\n").encode(),
+    "define-fn-open": lambda d: ("#define F(x) x\nvoid main() { println(" + Rr("F(", d) + "); }\n").encode(),
+    "define-long-body": lambda d: ("#define A " + Rr("1 + ", d) + "1\nvoid main() { println(A); }\n").encode(),
+    "define-continuation": lambda d: ("#define A 1 \\\n" + Rr(" + 1 \\\n", d) + " + 1\nvoid main() { println(A); }\n").encode(),
+    "ifdefs": lambda d: (R("#ifdef X\n", d) + R("#endif\n", d) + "void main() { }\n").encode(),
+    "ifndefs-true": lambda d: (R("#ifndef X\n", d) + "void main() { }\n" + R("#endif\n", d)).encode(),
+    "ifdefs-open": lambda d: (R("#ifndef X\n", d) + "void main() { }\n").encode(),
+    "endifs": lambda d: ("void main() { }\n" + R("#endif\n", d)).encode(),
+    "elifs": lambda d: ("#ifdef X\n" + R("#elif X\n", d) + "#else\n#endif\nvoid main() { }\n").encode(),
+    "undefs": lambda d: (R("#define A 1\n#undef A\n", d) + "void main() { }\n").encode(),
+}
+for _n, _o in BINOPS:
+    AMP["flat-" + _n] = (lambda o: lambda d: W("x = x" + R(" %s x" % o, d) + ";"))(_o)
+
+
+# ------------------------------------------------------------------ executed amplifiers (mode "full"): evaluator / executor recursion
+def X(body, pre="", decl=""):
+    return (pre + "void main() {\n int x = 1; long y = 1; double z = 1.5; string s = \"a\"; bool b = true; int[3] a = [0,1,2]; int* p = &x;\n %s\n %s\n println(x);\n}\n" % (decl, body)).encode()
+
+
+XPRE = ("struct S { int v; };\nstruct N { N* n; int v; };\nint f(int v) { return v; }\n")
+
+
+def rec(ret, params, base, step, call, pre=""):
+    return lambda d: (pre + "%s r(%s) { if (n <= 0) { %s } %s }\nvoid main() { %s; println(1); }\n" % (ret, params, base, step, call % d)).encode()
+
+
+EXEC = {
+    "x-recursion": rec("int", "int n", "return 0;", "return 1 + r(n - 1);", "println(r(%d))"),
+    "x-recursion-void": rec("void", "int n", "return;", "r(n - 1);", "r(%d)"),
+    "x-recursion-tail": rec("int", "int n", "return 0;", "return r(n - 1);", "println(r(%d))"),
+    "x-recursion-ternary": rec("int", "int n", "return 0;", "return n == 1 ? 1 : 1 + r(n - 1);", "println(r(%d))"),
+    "x-recursion-long": rec("long", "long n", "return 0;", "return 1 + r(n - 1);", "println(r(%d))"),
+    "x-recursion-double": rec("double", "int n", "return 0.5;", "return 1.5 + r(n - 1);", "println(r(%d))"),
+    "x-recursion-string": rec("string", "int n", 'return "";', 'return "a" + r(n - 1);', "string q = r(%d)"),
+    "x-recursion-interp": rec("string", "int n", 'return "";', 'return "a{r(n - 1)}";', "string q = r(%d)"),
+    "x-recursion-bool": rec("bool", "int n", "return true;", "return !r(n - 1);", "println(r(%d))"),
+    "x-recursion-arg": rec("int", "int n", "return 0;", "return f(r(n - 1));", "println(r(%d))", XPRE),
+    "x-recursion-index": rec("int", "int n", "return 0;", "int[2] q = [0, 0]; return q[r(n - 1)];", "println(r(%d))"),
+    "x-recursion-local-array": rec("int", "int n", "return 0;", "int[64] q; q[0] = n; return q[0] - n + r(n - 1);", "println(r(%d))"),
+    "x-recursion-struct": rec("S", "int n", "S q; q.v = 0; return q;", "S t = r(n - 1); t.v = t.v + 1; return t;", "S w = r(%d)", XPRE),
+    "x-recursion-while": rec("int", "int n", "return 0;", "int k = 0; int t = 0; while (k < 1) { t = r(n - 1); k = k + 1; } return t;", "println(r(%d))"),
+    "x-recursion-for": rec("int", "int n", "return 0;", "int t = 0; for (int k = 0; k < 1; k++) { t = r(n - 1); } return t;", "println(r(%d))"),
+    "x-recursion-if-blocks": rec("int", "int n", "return 0;", "{ { if (n > 0) { return r(n - 1); } } } return 0;", "println(r(%d))"),
+    "x-recursion-switch": rec("int", "int n", "return 0;", "switch (n) { case (0) { return 0; } else { return r(n - 1); } } return 0;", "println(r(%d))"),
+    "x-recursion-defer": rec("int", "int n", "return 0;", "defer f(1); return r(n - 1);", "println(r(%d))", XPRE),
+    "x-recursion-decl-init": rec("int", "int n", "return 0;", "int t = r(n - 1); return t;", "println(r(%d))"),
+    "x-recursion-assign": rec("int", "int n", "return 0;", "int t; t = r(n - 1); return t;", "println(r(%d))"),
+    "x-recursion-compound": rec("int", "int n", "return 0;", "int t = 1; t += r(n - 1); return t;", "println(r(%d))"),
+    "x-recursion-println": rec("void", "int n", "return;", "println(n); r(n - 1);", "r(%d)") ,
+    "x-recursion-and": rec("bool", "int n", "return true;", "return true && r(n - 1);", "println(r(%d))"),
+    "x-recursion-try": rec("int", "int n", "return 0;", "return try r(n - 1);", "println(r(%d))"),
+    "x-recursion-checked": rec("int", "int n", "return 0;", "return checked r(n - 1);", "println(r(%d))"),
+    "x-recursion-cast": rec("int", "int n", "return 0;", "return (int)r(n - 1);", "println(r(%d))"),
+    "x-recursion-unary": rec("int", "int n", "return 0;", "return -r(n - 1);", "println(r(%d))"),
+    "x-recursion-infinite": lambda d: b"void r() { r(); }\nvoid main() { r(); println(1); }\n",
+    "x-recursion-infinite-expr": lambda d: b"int r(int n) { return r(n + 1) + 1; }\nvoid main() { println(r(0)); }\n",
+    "x-mutual": lambda d: ("int ea(int n) { if (n <= 0) { return 0; } return eb(n - 1); }\nint eb(int n) { if (n <= 0) { return 1; } return ea(n - 1); }\n"
+                           "void main() { println(ea(%d)); }\n" % d).encode(),
+    "x-recursion-funcptr": lambda d: ("int r(int n) { if (n <= 0) { return 0; } int* q = &r; return q(n - 1); }\nvoid main() { println(r(%d)); }\n" % d).encode(),
+    "x-recursion-method": lambda d: ("struct C { int v; };\ninterface I { int m(int n); }\nimpl I for C { int m(int n) { if (n <= 0) { return 0; } return 1 + self.m(n - 1); } }\n"
+                                     "void main() { C c; c.v = 1; println(c.m(%d)); }\n" % d).encode(),
+    "x-recursion-generic": lambda d: ("T r<T>(T n) { if (n <= 0) { return n; } return r<T>(n - 1); }\nvoid main() { println(r<int>(%d)); }\n" % d).encode(),
+    "x-recursion-async": lambda d: ("async int r(int n) { if (n <= 0) { return 0; } int t = await r(n - 1); return t + 1; }\nvoid main() { int q = await r(%d); println(q); }\n" % d).encode(),
+    "x-recursion-lambda": lambda d: ("int r(int n) { if (n <= 0) { return 0; } int* q = int func(int k) { return r(k - 1); }; return q(n); }\nvoid main() { println(r(%d)); }\n" % d).encode(),
+    "x-recursion-option": lambda d: ("Option<int> r(int n) { if (n <= 0) { return Option<int>::None; } return r(n - 1); }\nvoid main() { Option<int> q = r(%d); println(1); }\n" % d).encode(),
+    "x-recursion-match": lambda d: ("int r(int n) { if (n <= 0) { return 0; } Option<int> o = Option<int>::Some(n); match (o) { Some(v) => { return r(v - 1); } None => { return 0; } } return 0; }\n"
+                                    "void main() { println(r(%d)); }\n" % d).encode(),
+    "x-ctor-recursion": lambda d: b"struct C { int v; };\nimpl C { self() { C inner; self.v = 1; } }\nvoid main() { C c; println(1); }\n",
+    # AST depth: nested
+    "x-paren": lambda d: X("x = " + R("(", d) + "1" + R(")", d) + ";"),
+    "x-minus": lambda d: X("x = " + R("- ", d) + "x;"),
+    "x-not": lambda d: X("b = " + R("!", d) + "b;"),
+    "x-tilde": lambda d: X("x = " + R("~", d) + "x;"),
+    "x-cast": lambda d: X("x = " + R("(int)", d) + "x;"),
+    "x-try": lambda d: X("x = " + R("try ", d) + "1;"),
+    "x-checked": lambda d: X("x = " + R("checked ", d) + "1;"),
+    "x-ternary-right": lambda d: X("x = " + R("x == 0 ? 1 : ", d) + "0;"),
+    "x-ternary-mid": lambda d: X("x = " + R("x == 1 ? ", d) + "1" + R(" : 0", d) + ";"),
+    "x-binary-right": lambda d: X("x = " + R("1 + (", d) + "1" + R(")", d) + ";"),
+    "x-call-nest": lambda d: X("x = " + R("f(", d) + "1" + R(")", d) + ";", XPRE),
+    "x-index-nest": lambda d: X("x = " + R("a[", d) + "0" + R("]", d) + ";"),
+    "x-assign-chain": lambda d: X(R("x = ", d) + "1;"),
+    "x-array-lit-nest": lambda d: X("int[1] q = " + R("[", d) + "1" + R("]", d) + ";"),
+    "x-struct-lit-nest": lambda d: X("S q = " + R("{v: ", d) + "1" + R("}", d) + ";", XPRE),
+    "x-lambda-nest": lambda d: X("int* q = " + R("int func(int v) { return ", d) + "v" + R("; }", d) + ";"),
+    "x-block": lambda d: X(R("{", d) + " x = 2; " + R("}", d)),
+    "x-if": lambda d: X(R("if (x == 1) { ", d) + "x = 1;" + R(" }", d)),
+    "x-if-else": lambda d: X(R("if (x == 0) { x = 1; } else { ", d) + "x = 1;" + R(" }", d)),
+    "x-else-if": lambda d: X("if (x == 0) { x = 1; }" + R(" else if (x == 0) { x = 1; }", d) + " else { x = 1; }"),
+    "x-while": lambda d: X("int k = 0; " + R("while (k == 0) { ", d) + "k = 1;" + R(" }", d)),
+    "x-for": lambda d: X("int k = 0; " + R("for (k = 0; k < 1; k++) { ", d) + "x = 1;" + R(" }", d)),
+    "x-switch": lambda d: X(R("switch (x) { case (1) { ", d) + "x = 1;" + R(" } }", d)),
+    "x-defer-nest": lambda d: X(R("defer { ", d) + "x = 1;" + R(" }", d)),
+    "x-interp-paren": lambda d: X('println("{' + "(" * d + "x" + ")" * d + '}");'),
+    # AST depth: flat chains (parsed iteratively, evaluated recursively)
+    "x-flat-string": lambda d: X('s = s' + R(' + "a"', d) + ";"),
+    "x-flat-double": lambda d: X("z = z" + R(" + 0.5", d) + ";"),
+    "x-flat-long": lambda d: X("y = y" + R(" + y", d) + ";"),
+    "x-flat-bool-and": lambda d: X("b = b" + R(" && b", d) + ";"),
+    "x-flat-bool-or": lambda d: X("b = !b" + R(" || !b", d) + ";"),
+    "x-flat-cmp": lambda d: X("b = x" + R(" == 1", d) + ";"),
+    "x-flat-in-call": lambda d: X("x = f(1" + R(" + 1", d) + ");", XPRE),
+    "x-flat-in-index": lambda d: X("x = a[0" + R(" + 0", d) + "];"),
+    "x-flat-in-cond": lambda d: X("if (x" + R(" + 0", d) + " == 1) { x = 1; }"),
+    "x-flat-in-println": lambda d: X("println(1" + R(" + 1", d) + ");"),
+    "x-flat-in-return": lambda d: ("int h() { return 1" + R(" + 1", d) + "; }\nvoid main() { println(h()); }\n").encode(),
+    "x-flat-in-decl": lambda d: X("int q = 1" + R(" + 1", d) + ";"),
+    "x-flat-in-global": lambda d: ("int gq = 1" + R(" + 1", d) + ";\nvoid main() { println(gq); }\n").encode(),
+    "x-flat-in-array-lit": lambda d: X("int[1] q = [1" + R(" + 1", d) + "];"),
+    "x-flat-in-interp": lambda d: X('println("{1' + " + 1" * d + '}");'),
+    "x-flat-in-ternary": lambda d: X("x = x == 1 ? 1" + R(" + 1", d) + " : 0;"),
+    "x-flat-compound": lambda d: X("x += 1" + R(" + 1", d) + ";"),
+    "x-arrow-chain": lambda d: X("N node; node.v = 7; node.n = &node; x = node.n" + R("->n", d) + "->v;", XPRE),
+    "x-call-chain-args": lambda d: X("x = f(1)" + R(" + f(1)", d) + ";", XPRE),
+    "x-postfix-chain": lambda d: X(R("x++; ", d)),
+    "x-statements-many": lambda d: X(R("x = 1; ", d)),
+    "x-println-args-wide": lambda d: X("println(" + R("1, ", d) + "1);"),
+    "x-array-lit-wide": lambda d: X("int[%d] q = [" % (d + 1) + R("1, ", d) + "1];"),
+    "x-interp-many": lambda d: X('println("' + "{x}" * d + '");'),
+    "x-loop-defer": lambda d: X("for (int k = 0; k < %d; k++) { defer x = x + 1; }" % d),
+    "x-loop-alloc": lambda d: X("for (int k = 0; k < %d; k++) { int[100] q; q[0] = k; }" % d),
+    "x-string-grow": lambda d: X('for (int k = 0; k < %d; k++) { s = s + "a"; }' % d),
+}
+for _n, _o in BINOPS:
+    EXEC["x-flat-" + _n] = (lambda o: lambda d: X("x = x" + R(" %s x" % o, d) + ";"))(_o)
+AMP.update(EXEC)
+
+
+PARSE_KINDS = [k for k in AMP if k not in EXEC]
+EXEC_KINDS = list(EXEC)
+DEPTHS = [1000, 10000, 100000]
+# every look-ahead / backtracking point of the parser copies the lexer INCLUDING the source text (finding C10-lexer-copy-quadratic), so
+# the cost of an amplified input is (levels reached) x (bytes): the input size is capped (the depth is scaled down, never below 10^4)
+CAP_BYTES = {"asan": 250000, "plain": 800000}
+# known findings of the unchanged tree: the main stream stays below the depth at which the recorded defect shows
+# (per kind and build; the finding's own replay runs the input that trips it)
+AVOID_DEPTH = {
+    "comments": {"asan": 10000, "plain": 40000},           # C10-comment-run-stack-overflow
+    "line-comments": {"asan": 10000, "plain": 40000},
+    "ternary-open": {"asan": 300, "plain": 300},            # C10-ternary-reparse-superlinear
+    "ternary-mid": {"asan": 1000, "plain": 10000},          # C10-ternary-swallows-nesting-error
+    "x-ternary-mid": {"asan": 1000, "plain": 10000},
+    "struct-self-nest": {"asan": 1000, "plain": 1000},      # C10-struct-chain-superlinear
+    "enum-members-wide": {"asan": 10000, "plain": 30000},   # C10-lexer-copy-quadratic (and a linear member search per member)
+    "switch-cases-wide": {"asan": 5000, "plain": 20000},
+    "match-arms-wide": {"asan": 5000, "plain": 20000},
+    "lt-chain": {"asan": 20000},                            # linear, but 256 tokens of look-ahead per '<'
+    "lt-gt-chain": {"asan": 20000},
+    "flat-lt": {"asan": 20000},
+    "x-flat-lt": {"asan": 20000},
+    "x-string-grow": {"asan": 20000},                       # the sanitised build keeps every freed string (quarantine)
+    "cast-generic": {"asan": 5000, "plain": 30000},         # C10-lexer-copy-quadratic: two lexer copies + a type instantiation per cast
+    "statements-many": {"asan": 15000},
+    "x-statements-many": {"asan": 15000},
+    "x-postfix-chain": {"asan": 15000},
+}
+PARSE_ONLY_EXEC = {"x-assign-chain"}                        # C10-assign-expr-null-deref: `x = y = 1;` crashes the evaluator
+
+
+def amp(kind, d, one_line=False):
+    """input of an amplifier (NOT thread safe: inputs are built before the pool starts)"""
+    ONE_LINE[0] = one_line
+    try:
+        return AMP[kind](d)
+    finally:
+        ONE_LINE[0] = False
+
+
+def amp_capped(kind, depth, build):
+    """(actual depth, bytes): depth limited by the avoidance table and by the size cap of the build"""
+    d = min(depth, AVOID_DEPTH.get(kind, {}).get(build, depth))
+    data = amp(kind, d)
+    cap = CAP_BYTES[build]
+    if len(data) > cap and d > 10000:
+        d = max(10000, int(d * cap / len(data)))
+        data = amp(kind, d)
+    return d, data
+
+
+def amp_matrix(tier, seed):
+    """[(kind, mode, build, depth)] of the deep streams of this run"""
+    quick = tier == "quick"
+    out = []
+    for k in PARSE_KINDS:
+        for b in ("asan", "plain"):
+            for dp in (DEPTHS if (not quick or b == "asan") else DEPTHS[1:]):
+                out.append((k, "parse", b, dp))
+            if not quick:
+                out += [(k, "parse", b, dp) for dp in (3000, 30000)]
+    for k in EXEC_KINDS:
+        mode = "parse" if k in PARSE_ONLY_EXEC else "full"
+        flat = k.startswith("x-flat") or k in ("x-call-chain-args", "x-ternary-right", "x-ternary-mid")   # evaluation of a flat chain is quadratic below the guard
+        for b in ("asan", "plain"):
+            dps = list(DEPTHS)
+            if quick and flat:
+                dps = [1000, 100000]
+            if quick and b == "plain":
+                dps = [x for x in dps if x != 1000]
+            out += [(k, mode, b, dp) for dp in dps]
+            if not quick:
+                out += [(k, mode, b, dp) for dp in (3000, 30000)]
+    return out
+
+
+# a few kinds under other stack-size limits (the guard's budget is derived from RLIMIT_STACK)
+STACK_KINDS = ["paren", "try", "block", "generic-type", "if-nobrace", "call", "x-recursion", "x-flat-add", "x-minus", "lambda"]
+STACK_LIMITS = [2 << 20, 64 << 20]
+
+
+# ------------------------------------------------------------------ executed edge cases of integer arithmetic and allocation
+EDGE_VALS = ["0", "1", "2", "-1", "-2", "7", "31", "32", "33", "63", "64", "65", "127", "128", "255", "256", "1000", "32767", "32768",
+             "65535", "65536", "2147483647", "2147483648", "-2147483648", "4294967296", "4611686018427387904",
+             "9223372036854775807", "-9223372036854775807", "(0 - 9223372036854775807 - 1)", "-64", "-63"]
+EDGE_OPS = ["+", "-", "*", "/", "%", "<<", ">>", "&", "|", "^"]
+EDGE_FORMS = [
+    "void main() {{ {t} a = {a}; {t} b = {b}; println(a {op} b); }}\n",
+    "void main() {{ {t} a = {a}; {t} b = {b}; {t} c = a {op} b; println(c); }}\n",
+    "void main() {{ {t} a = {a}; {t} b = {b}; a {op}= b; println(a); }}\n",
+    "void main() {{ println({a} {op} {b}); }}\n",
+    "void main() {{ {t} a = {a}; println(a {op} {b}); }}\n",
+    "void main() {{ {t} b = {b}; println({a} {op} b); }}\n",
+    "void main() {{ {t} a = {a}; {t} b = {b}; if ((a {op} b) == 0) {{ println(0); }} else {{ println(1); }} }}\n",
+    "void main() {{ {t}[2] q = [{a}, {b}]; println(q[0] {op} q[1]); }}\n",
+    "{t} h({t} a, {t} b) {{ return a {op} b; }}\nvoid main() {{ println(h({a}, {b})); }}\n",
+    "void main() {{ {t} a = {a}; println(-a); println(~a); a++; println(a); a--; a--; println(a); }}\n",
+    "void main() {{ {t} a = {a}; {t} b = {b}; println(-(a {op} b)); }}\n",
+]
+EDGE_TYPES = ["long", "int", "short", "tiny", "unsigned int", "unsigned long"]
+ALLOC_EDGE = [
+    "void main() { int[65536][65536] q; println(1); }\n",
+    "void main() { int[46341][46341] q; println(1); }\n",
+    "void main() { int[1024][1024][1024] q; println(1); }\n",
+    "void main() { int[2048][1024][1024] q; println(1); }\n",
+    "void main() { long[65536][32768] q; println(1); }\n",
+    "void main() { int[2147483647] q; println(1); }\n",
+    "void main() { int[2147483648] q; println(1); }\n",
+    "void main() { int[4294967296] q; println(1); }\n",
+    "void main() { int[4294967297] q; println(1); }\n",
+    "void main() { int[9223372036854775807] q; println(1); }\n",
+    "void main() { int[1000000000] q; println(1); }\n",
+    "void main() { string[100000000] q; println(1); }\n",
+    "void main() { int[0] q; println(1); }\n",
+    "void main() { int[-1] q; println(1); }\n",
+    "void main() { int[3][0] q; println(1); }\n",
+    "void main() { int[0][3] q; q[0][0] = 1; println(1); }\n",
+    "void main() { int[2][2147483647] q; println(1); }\n",
+    "void main() { int[3][3][3][3][3][3][3][3][3][3][3][3][3][3][3][3][3][3][3][3][3] q; println(1); }\n",
+    "const int N = 65536;\nvoid main() { int[N][N] q; println(1); }\n",
+    "const int N = -3;\nvoid main() { int[N] q; println(1); }\n",
+    "int[65536][65536] gq;\nvoid main() { println(1); }\n",
+    "struct M { int[65536][65536] v; };\nvoid main() { M m; println(1); }\n",
+    "void main() { int[3] a = [1, 2, 3]; println(a[3]); }\n",
+    "void main() { int[3] a = [1, 2, 3]; println(a[-1]); }\n",
+    "void main() { int[3] a = [1, 2, 3]; println(a[2147483647]); }\n",
+    "void main() { int[3] a = [1, 2, 3]; println(a[2147483648]); }\n",
+    "void main() { int[3] a = [1, 2, 3]; println(a[4294967296]); }\n",
+    "void main() { int[3] a = [1, 2, 3]; println(a[9223372036854775807]); }\n",
+    "void main() { int[3] a = [1, 2, 3]; long i = 0 - 9223372036854775807 - 1; println(a[i]); }\n",
+    "void main() { int[3] a = [1, 2, 3]; a[3] = 1; println(1); }\n",
+    "void main() { int[3] a = [1, 2, 3]; a[-1] = 1; println(1); }\n",
+    "void main() { int[3] a = [1, 2, 3]; a[4294967296] = 1; println(a[0]); }\n",
+    "void main() { int[2][2] m = [[1, 2], [3, 4]]; println(m[1][2]); }\n",
+    "void main() { int[2][2] m = [[1, 2], [3, 4]]; println(m[2][0]); }\n",
+    "void main() { int[2][2] m = [[1, 2], [3, 4]]; println(m[0][-1]); }\n",
+    "void main() { int[2][2] m = [[1, 2], [3, 4]]; println(m[-1][0]); }\n",
+    "void main() { int[2][2] m = [[1, 2], [3, 4]]; m[1][2] = 5; println(m[1][1]); }\n",
+    "void main() { int[2][2] m = [[1, 2], [3, 4]]; m[4294967296][0] = 5; println(m[0][0]); }\n",
+    "void main() { int[2][3][2] m; m[1][2][2] = 1; println(1); }\n",
+    "void main() { int[2][3][2] m; println(m[1][3][0]); }\n",
+    "void main() { int[3] a = [1, 2, 3, 4]; println(1); }\n",
+    "void main() { int[2][2] m = [[1, 2, 3], [4, 5, 6]]; println(1); }\n",
+    "void main() { int[2][2] m = [[1, 2], [3, 4], [5, 6]]; println(1); }\n",
+    "void main() { string s = \"abc\"; println(s[3]); }\n",
+    "void main() { string s = \"abc\"; println(s[-1]); }\n",
+    "void main() { string s = \"abc\"; println(s[4294967296]); }\n",
+    "void main() { string s = \"\"; println(s[0]); }\n",
+    "void main() { char c = 'a'; int x = c + 2147483647; println(x); }\n",
+    "void main() { int x = 2147483647; x++; println(x); }\n",
+    "void main() { long x = 9223372036854775807; x++; println(x); }\n",
+    "void main() { long x = 0 - 9223372036854775807 - 1; x--; println(x); }\n",
+    "void main() { long x = 0 - 9223372036854775807 - 1; println(-x); }\n",
+    "void main() { long x = 0 - 9223372036854775807 - 1; println(x / -1); }\n",
+    "void main() { long x = 0 - 9223372036854775807 - 1; println(x % -1); }\n",
+    "void main() { long x = 0 - 9223372036854775807 - 1; long y = -1; x /= y; println(x); }\n",
+    "void main() { int x = 1; println(x / 0); }\n",
+    "void main() { int x = 1; println(x % 0); }\n",
+    "void main() { double z = 1.0; println(z / 0.0); }\n",
+    "void main() { double z = 1e308; println(z * 10.0); int k = z; println(k); }\n",
+    "void main() { double z = 1e308; long k = (long)z; println(k); }\n",
+    "void main() { float z = 3.0e38; int k = (int)z; println(k); }\n",
+    "void main() { double z = 0.0; double w = z / z; int k = (int)w; println(k); }\n",
+    "void main() { println(99999999999999999999); }\n",
+    "void main() { long x = 99999999999999999999999999; println(x); }\n",
+    "void main() { println(1e999); }\n",
+    "void main() { println(0x7FFFFFFFFFFFFFFF + 1); }\n",
+    "void main() { println(0xFFFFFFFFFFFFFFFFF); }\n",
+]
+
+
+def edge_case(rng):
+    form = rng.choice(EDGE_FORMS)
+    return form.format(t=rng.choice(EDGE_TYPES) if rng.random() < 0.5 else "long", a=rng.choice(EDGE_VALS), b=rng.choice(EDGE_VALS),
+                       op=rng.choice(EDGE_OPS))
 
 
 # ------------------------------------------------------------------ lexer correspondence (leaf driver vs extracted model)
@@ -450,7 +950,9 @@ def directive_file(rng):
 E_IDS = ["a", "b", "c", "f", "g", "x"]
 E_BIN = ["||", "&&", "|", "^", "&", "==", "!=", "<", "<=", ">", ">=", "<<", ">>", "+", "-", "*", "/", "%"]
 E_ASG = ["=", "+=", "-=", "*=", "/=", "%=", "&=", "|=", "^=", "<<=", ">>="]
-E_ALL = E_IDS + ["0", "1", "7", "42"] + E_BIN + E_ASG + ["!", "~", "++", "--", "(", ")", "[", "]", ".", "->", "?", ":", ","]
+E_PREFIX = ["!", "-", "~", "*", "&", "try", "checked", "await"]      # the eight self-recursive prefix productions of parseUnary
+E_ALL = E_IDS + ["0", "1", "7", "42"] + E_BIN + E_ASG + ["!", "~", "++", "--", "(", ")", "[", "]", ".", "->", "?", ":", ",",
+                                                          "try", "checked", "await"]
 
 
 def gen_expr(rng, depth):
@@ -461,7 +963,7 @@ def gen_expr(rng, depth):
     if r < 0.50:
         return gen_expr(rng, depth - 1) + [rng.choice(E_BIN)] + gen_expr(rng, depth - 1)
     if r < 0.58:
-        return [rng.choice(["!", "-", "~", "*", "&", "++", "--"])] + gen_expr(rng, depth - 1)
+        return [rng.choice(E_PREFIX + ["++", "--"])] + gen_expr(rng, depth - 1)
     if r < 0.66:
         return ["("] + gen_expr(rng, depth - 1) + [")"]
     if r < 0.72:
@@ -501,7 +1003,18 @@ def unmodelled_expr(toks):
 def expr_case(rng):
     toks = gen_expr(rng, rng.randint(1, 4))
     kind = "valid"
-    if rng.random() < 0.55:
+    r0 = rng.random()
+    if r0 < 0.06:
+        # long chains of the prefix productions / parentheses: the model (fuel 15 per token) accepts them, so must the parser
+        n = rng.choice([5, 30, 120, 400, 1000])
+        kind = "chain"
+        if rng.random() < 0.7:
+            pre = [rng.choice(E_PREFIX)] if rng.random() < 0.4 else E_PREFIX
+            toks = [rng.choice(pre) for _ in range(n)] + toks
+        else:
+            n = min(n, 400)
+            toks = ["("] * n + toks + [")"] * n
+    elif r0 < 0.58:
         kind = "mutated"
         for _ in range(rng.randint(1, 2)):
             r = rng.random()
@@ -664,13 +1177,24 @@ def run(rep):
 
     def bound(n):
         return 3 * cpu0 + 0.5 + 8 * c_fit * n
+
+    def case_bound(c, n):
+        """CPU bound of a campaign case: the linear bound speaks about the FRONT END on inputs of ordinary size; executed programs
+        (their own loops) and the deep amplifiers (some 100 KB, where the recorded quadratic lexer copy dominates) only have the
+        10 s CPU limit of run_case"""
+        if c[3] != "parse" or c[0] in ("amplify-deep", "amplify-exec", "amplify-stacklimit") or n > 4 * MAX_BYTES:
+            return None
+        g = (c[8] if len(c) > 8 else extra(c)).get("gen") or {}
+        # a self-referential macro is expanded until the growth bound of fix 6b05a50 (16 KiB per line and pass) stops it: a constant
+        # amount of work (theorem preproc_expand_size_bounded), not proportional to the input
+        return (bound(n) + (2.0 if g.get("kind") in ("define-selfref", "define-mutual") else 0.0)) * (3 if c[5] else 1)
     rep.coverage["timing"] = {"startup_cpu_s": round(cpu0, 4), "c_fit_s_per_byte": c_fit, "bound": "3*startup + 0.5 + 8*c*n (CPU seconds)",
                               "max_repo_file_cpu_s": round(max(r["cpu"] for _, _, r in base), 3) if base else None}
     for f, d, r in base:
         note(d, r)
         s = signature(r, bound(len(d)) * 2)
         if s:
-            failures.append(("repo-file", f, d, "parse", [], False, r, s))
+            failures.append(("repo-file", f, d, "parse", [], False, r, s, {}))
     usable = [(f, d) for f, d, r in base if len(d) <= MAX_BYTES and len(d) > 20 and not trips_selfref_macro(d)]
 
     # ---------------- (3) generated streams, all through one pool
@@ -701,12 +1225,32 @@ def run(rep):
             pos += len(t)
             if not t.isspace():
                 cases.append(("truncation", "%s@%d" % (os.path.relpath(f, common.REPO), pos), d[:pos], "parse", [], False))
-    # nesting amplification
-    for kind in AMP_KINDS:
-        for dpt in ([40, SAFE_DEPTH] if quick else [10, 40, 150, SAFE_DEPTH]):
-            cases.append(("amplify", "%s:%d" % (kind, dpt), amp(kind, dpt), "parse", [], False))
-        for dpt in ([600, 2000] if quick else [500, 1000, 1500, 2000]):
-            cases.append(("amplify-deep", "%s:%d" % (kind, dpt), amp(kind, dpt), "parse", [], True))
+    # nesting amplification, small: the whole construct on ONE line, default stack, sanitised build
+    for kind in PARSE_KINDS:
+        for dpt in ([SAFE_DEPTH] if quick else [10, 40, 150, SAFE_DEPTH]):
+            dd = min(dpt, AVOID_DEPTH.get(kind, {}).get("asan", dpt))
+            cases.append(("amplify", "%s:%d" % (kind, dd), amp(kind, dd, True), "parse", [], False,
+                          {"gen": {"kind": kind, "depth": dd, "one_line": True}}))
+    # nesting amplification, deep: every kind at 10^3 / 10^4 / 10^5 on both builds, default stack; the input is built in the worker
+    deep = []
+    for kind, mode, build, dpt in amp_matrix(tier, seed):
+        dd = min(dpt, AVOID_DEPTH.get(kind, {}).get(build, dpt))
+        deep.append((kind, mode, build, dd))
+    for kind, mode, build, dd in sorted(set(deep)):
+        cases.append(("amplify-exec" if kind in EXEC else "amplify-deep", "%s:%d:%s" % (kind, dd, build), None, mode, [], False,
+                      {"build": build, "gen": {"kind": kind, "depth": dd}}))
+    # the same under other stack-size limits (the guard derives its budget from RLIMIT_STACK)
+    for kind in STACK_KINDS:
+        for lim in STACK_LIMITS:
+            for build in (("plain",) if quick else ("plain", "asan")):
+                cases.append(("amplify-stacklimit", "%s:%d:%s:stack=%dMiB" % (kind, 100000, build, lim >> 20), None,
+                              "full" if kind in EXEC else "parse", [], False,
+                              {"build": build, "stack": lim, "gen": {"kind": kind, "depth": 100000}}))
+    # executed edge cases of integer arithmetic, shifts, array extents and indices (sanitised build)
+    for k in range(250 if quick else 6000):
+        cases.append(("edge-arith", "", edge_case(rng_for(seed, "c10-edge", k)).encode(), "full", [], False))
+    for src in ALLOC_EDGE:
+        cases.append(("edge-alloc", "", src.encode(), "full", [], False))
     # amplification of repository files: wrap one expression token of a file in parentheses / blocks
     for k in range(40 if quick else 600):
         rng = rng_for(seed, "c10-ampfile", k)
@@ -727,8 +1271,8 @@ def run(rep):
     corpus = os.path.join(common.VERIF, "corpus", "c10.json")
     if os.path.exists(corpus):
         for c in json.load(open(corpus)):
-            cases.append(("corpus", c.get("label", ""), bytes.fromhex(c["source_hex"]), c.get("mode", "parse"), c.get("args", []),
-                          bool(c.get("big_stack"))))
+            cases.append(("corpus", c.get("label", ""), finding_input(c) if "gen" in c else bytes.fromhex(c["source_hex"]),
+                          c.get("mode", "parse"), c.get("args", []), bool(c.get("big_stack")), {"build": c.get("build", "asan")}))
 
     # directive-only files: model verdict
     pp_cases = []
@@ -753,11 +1297,12 @@ def run(rep):
         sx = []
         for k in range(300 if quick else 5000):
             rng = rng_for(seed, "c10-core", k)
-            g = gen_core.Gen(rng, gen_core.Opts(wide_lits=False))
-            # avoid C10-shift-ub: shift operators are replaced (any count outside 0..63 / negative operand is UB in the evaluator)
-            sx.append(g.program().replace("(bin << ", "(bin + ").replace("(bin >> ", "(bin - "))
+            # since 7af444c / 4ed6b21 long arithmetic wraps and shift counts are checked: wide literals and shifts are generated
+            # again, and programs whose meaning the CbCore model leaves undefined are run too (C10 only asks for exit 0/1, no UB)
+            g = gen_core.Gen(rng, gen_core.Opts())
+            sx.append(g.program())
         ms = langrun.model_run(sx)
-        core_srcs = [m for m in ms if m["expect"] not in ("undef", "nofuel") and "<<" not in m["src"] and ">>" not in m["src"]]
+        core_srcs = [m for m in ms if m["expect"] != "nofuel"]
     except Exception as e:      # the shared CbCore tool chain is not mine; its absence must not fail C10
         rep.notes.append("CbCore generator unavailable (%s): execution half skipped" % str(e)[:200])
     for m in core_srcs:
@@ -766,17 +1311,38 @@ def run(rep):
     # a hanging implementation must not stall the check: after 25 time-outs the remaining runs get 1 s of CPU
     hung = {"n": 0}
 
-    def guarded(data, mode, args, big):
+    def guarded(data, mode, args, big, build="asan", stack=None):
         slow = hung["n"] > 25
-        r = run_case(asan, data, mode, args, big, cpu=1 if slow else 10, wall=10 if slow else 60)
+        r = run_case(asan if build == "asan" else plain, data, mode, args, big, cpu=1 if slow else 10, wall=10 if slow else 60, stack=stack)
         if r["killed"] or r["rc"] in (-24, -25, -9):
             hung["n"] += 1
         return r
 
+    def extra(c):
+        return c[6] if len(c) > 6 else {}
+
+    def case_data(c):
+        """(bytes, depth actually used)"""
+        if c[2] is not None:
+            return c[2], extra(c).get("gen", {}).get("depth")
+        g = extra(c)["gen"]
+        d, data = amp_capped(g["kind"], g["depth"], extra(c).get("build", "asan"))
+        return data, d
+
     def run_one(c):
-        return c, guarded(c[2], c[3], c[4], c[5])
+        x = extra(c)
+        data, d = case_data(c)
+        r = guarded(data, c[3], c[4], c[5], x.get("build", "asan"), x.get("stack"))
+        r["nbytes"] = len(data)
+        r["depth"] = d
+        if c[2] is None:
+            r["head"] = data[:300]
+        return c, r
     t_run = time.time()
-    results = common.pmap(run_one, cases)
+    # the expensive deep cases first, so that the pool's tail is made of cheap ones
+    order = sorted(range(len(cases)), key=lambda i: (0 if cases[i][2] is None else 1, i))
+    res_by = dict(zip(order, common.pmap(run_one, [cases[i] for i in order])))
+    results = [res_by[i] for i in range(len(cases))]
 
     def run_pp(c):
         text, args = c
@@ -788,18 +1354,31 @@ def run(rep):
     ex_res = common.pmap(run_ex, ex_cases)
     rep.coverage["campaign_wall_s"] = round(time.time() - t_run, 1)
 
+    guard_hits = {"parser": 0, "evaluator": 0}
+    cpu_by = {}
+    for c, r in results:
+        cpu_by[c[0]] = cpu_by.get(c[0], 0.0) + r["cpu"]
+    rep.coverage["cpu_s_by_stream"] = {k: round(v, 1) for k, v in cpu_by.items()}
+    rep.coverage["slowest_cases"] = [(c[1], round(r["cpu"], 2), r["nbytes"]) for c, r in sorted(results, key=lambda cr: -cr[1]["cpu"])[:25]]
     for c, r in results:
         evaluations += 1
         hist[c[0]] = hist.get(c[0], 0) + 1
-        note(c[2], r)
-        s = signature(r, bound(len(c[2])) * (3 if c[5] else 1))
+        note(c[2] if c[2] is not None else (b"%d " % r["nbytes"]) + r["head"], r)
+        if "Nesting too deep" in r["err"]:
+            guard_hits["parser"] += 1
+        if "Stack limit reached" in r["err"]:
+            guard_hits["evaluator"] += 1
+        s = signature(r, case_bound(c, r["nbytes"]))
         if s:
-            failures.append((c[0], c[1], c[2], c[3], c[4], c[5], r, s))
+            failures.append((c[0], c[1], c[2], c[3], c[4], c[5], r, s, extra(c)))
+    rep.coverage["stack_guard_diagnostics_seen"] = guard_hits
     samples.append({"stream": results[0][0][0], "label": results[0][0][1], "source": show(results[0][0][2], 300), "rc": results[0][1]["rc"]})
-    for c, r in results:
-        if c[0] == "amplify-deep":
-            samples.append({"stream": c[0], "label": c[1], "bytes": len(c[2]), "rc": r["rc"], "cpu_s": round(r["cpu"], 3)})
-            break
+    for want in ("amplify-deep", "amplify-exec"):
+        for c, r in results:
+            if c[0] == want and r["rc"] == 1:
+                samples.append({"stream": c[0], "label": c[1], "bytes": r["nbytes"], "rc": r["rc"], "cpu_s": round(r["cpu"], 3),
+                                "stderr_head": r["err"][:120]})
+                break
 
     # ---- verdict correspondence: directive-only files
     pp_bad, pp_cmp = [], 0
@@ -808,7 +1387,7 @@ def run(rep):
         note(text.encode(), r)
         s = signature(r, bound(len(text)))
         if s:
-            failures.append(("directive-file", " ".join(args), text.encode(), "parse", ["-D" + a for a in args], False, r, s))
+            failures.append(("directive-file", " ".join(args), text.encode(), "parse", ["-D" + a for a in args], False, r, s, {}))
             continue
         if mv == "EMPTYNAME":
             continue
@@ -846,7 +1425,7 @@ def run(rep):
         note(src, r)
         s = signature(r, bound(len(src)))
         if s:
-            failures.append(("expr-program", kind, src, "parse", [], False, r, s))
+            failures.append(("expr-program", kind, src, "parse", [], False, r, s, {}))
             continue
         if mv == "FUEL":
             rep.violation("model-fuel", {"expr": text}, "the extracted expression model ran out of fuel on %r (contradicts front_end_verdict_total)" % text, True)
@@ -882,37 +1461,102 @@ def run(rep):
     rep.coverage["expr_verdicts_skipped_unmodelled"] = ex_skip
 
     # ---------------- (4) failures of the oracle: known signature (tolerated stream leak) or VIOLATION
+    def impl_of(x):
+        return asan if x.get("build", "asan") == "asan" else plain
+
+    def fl_data(fl, depth=None):
+        x = fl[8]
+        if fl[2] is not None and depth is None:
+            return fl[2]
+        g = x["gen"]
+        return amp(g["kind"], depth if depth is not None else fl[6]["depth"], bool(g.get("one_line")))
+
+    def fl_sig(fl, data):
+        x = fl[8]
+        r2 = run_case(impl_of(x), data, fl[3], fl[4], fl[5], stack=x.get("stack"))
+        return signature(r2, case_bound(fl, len(data))), r2
+
+    def same(a, b):
+        """same kind of failure (for crashes the place may move with the depth)"""
+        return a is not None and b is not None and a.split("|")[:2] == b.split("|")[:2]
+
+    # time-outs and slow runs were measured with 16 runs in flight on a possibly busy machine: they are re-measured one at a time and
+    # kept only if they repeat (after three repeats in a row the rest is taken as measured - a hanging tree must not cost hours)
+    rep.coverage["oracle_failures_before_remeasure"] = len(failures)
+    kept, streak, dropped = [], 0, 0
+    for fl in failures:
+        if fl[7] in ("slow", "timeout") and streak < 3:
+            s2, _ = fl_sig(fl, fl_data(fl))
+            if s2 not in ("slow", "timeout"):
+                dropped += 1
+                streak = 0
+                continue
+            streak += 1
+        kept.append(fl)
+    if dropped:
+        rep.notes.append("%d slow/time-out measurement(s) of the parallel campaign did not repeat when re-run alone (machine load)" % dropped)
+    failures = kept
     rep.coverage["oracle_failures"] = len(failures)
     by_sig = {}
     for fl in failures:
-        by_sig.setdefault(fl[7], []).append(fl)
+        g = fl[8].get("gen")
+        by_sig.setdefault((fl[7], g["kind"] if g else ""), []).append(fl)
     reported = 0
-    for s, fls in sorted(by_sig.items(), key=lambda kv: -len(kv[1])):
+    for (s, gk), fls in sorted(by_sig.items(), key=lambda kv: (0 if kv[0][1] else 1, -len(kv[1]))):
         k = match_known(s, findings)
         if k is not None:
             rep.known(k["id"], k["what_fails"])
             rep.notes.append("%d main-stream case(s) leaked into known finding %s (%s)" % (len(fls), k["id"], s))
             continue
-        if reported >= 4:
+        if reported >= 6:
             continue
         reported += 1
-        fls.sort(key=lambda x: len(x[2]))
-        stream, label, data, mode, args, big, r, _ = fls[0]
-
-        def still(y, s=s, mode=mode, args=args, big=big):
-            r2 = run_case(asan, y, mode, args, big)
-            return signature(r2, bound(len(y)) * (3 if big else 1)) == s
-        small = shrink_bytes(data, still, 40 if quick else 150) if len(data) <= 20000 and s != "slow" else data
-        r2 = run_case(asan, small, mode, args, big)
-        if signature(r2, bound(len(small)) * (3 if big else 1)) != s:
-            small, r2 = data, r
-        rp = run_case(plain, small, mode, args, big)
-        rep.violation("oracle", {"source": show(small), "source_hex": small[:20000].hex(), "mode": mode, "args": args, "big_stack": big,
-                                 "stream": stream, "label": label, "signature": s, "rc_sanitised": r2["rc"], "cpu_s": round(r2["cpu"], 3),
-                                 "stderr": r2["err"][:1500], "rc_plain_build": rp["rc"], "cases_with_this_signature": len(fls),
-                                 "demanded": "exit status 0 or 1, no signal, no sanitizer report, diagnostic when 1, CPU <= %.2fs" % bound(len(small))},
-                      "front end violates C10 on a %d-byte input (%s, %s): %s; plain build exit %d" % (
-                          len(small), stream, mode, s, rp["rc"]))
+        fls.sort(key=lambda x: x[6].get("nbytes", 0) if x[2] is None else len(x[2]))
+        fl = fls[0]
+        stream, label, data, mode, args, big, r, _, x = fl
+        gen = x.get("gen")
+        if gen:
+            # an amplified input is shrunk along its depth (smallest depth with the same kind of failure)
+            hi = r.get("depth") or gen["depth"]
+            lo = 0
+            budget = 14 if s not in ("slow", "timeout") else 4
+            while hi - lo > max(1, hi // 20) and budget > 0:
+                budget -= 1
+                mid = (lo + hi) // 2
+                s2, _ = fl_sig(fl, fl_data(fl, mid))
+                if same(s2, s):
+                    hi = mid
+                else:
+                    lo = mid
+            small = fl_data(fl, hi)
+            gen = dict(gen, depth=hi)
+            s2, r2 = fl_sig(fl, small)
+            if not same(s2, s):
+                small, r2, gen = fl_data(fl), r, dict(gen, depth=r.get("depth") or gen["depth"])
+        else:
+            def still(y, s=s, fl=fl):
+                return fl_sig(fl, y)[0] == s
+            small = shrink_bytes(data, still, 40 if quick else 150) if len(data) <= 20000 and s != "slow" else data
+            s2, r2 = fl_sig(fl, small)
+            if s2 != s:
+                small, r2 = data, r
+        other = plain if impl_of(x) is asan else asan
+        ro = run_case(other, small, mode, args, big, stack=x.get("stack"))
+        payload = {"source": show(small, 600), "mode": mode, "args": args, "big_stack": big, "build": x.get("build", "asan"),
+                   "stream": stream, "label": label, "signature": s, "rc": r2["rc"], "cpu_s": round(r2["cpu"], 3), "bytes": len(small),
+                   "stderr": r2["err"][:1500], "rc_other_build": ro["rc"], "signature_other_build": signature(ro),
+                   "cases_with_this_signature": len(fls),
+                   "demanded": "exit status 0 or 1, no signal, no sanitizer report, diagnostic when 1, CPU <= %.2fs" % bound(len(small))}
+        if x.get("stack"):
+            payload["stack"] = x["stack"]
+        if gen:
+            payload["gen"] = gen
+        if len(small) <= 20000 or not gen:
+            payload["source_hex"] = small[:20000].hex()
+        rep.violation("oracle", payload,
+                      "interpreter violates C10 on a %d-byte input (%s%s, %s, %s build): %s; %s build: exit %d%s" % (
+                          len(small), stream, (" " + gen["kind"] + " x %d" % gen["depth"]) if gen else "", mode, x.get("build", "asan"), s,
+                          "plain" if other is plain else "sanitised", ro["rc"], (" " + signature(ro)) if signature(ro) else ""))
 
     # ---------------- (5) known findings: replay each; still failing -> KNOWN-FINDING
     for f in findings:
@@ -953,7 +1597,7 @@ def finding_input(rp):
         g = rp["gen"]
         if g["kind"] == "repeat":
             return (g["head"] + g["unit"] * g["n"] + g["tail"]).encode()
-        return amp(g["kind"], g["depth"])
+        return amp(g["kind"], g["depth"], bool(g.get("one_line")))
     return rp["source"].encode("latin-1")
 
 
@@ -963,8 +1607,9 @@ def replay_finding(f, asan, plain):
     impl = asan if rp.get("build", "asan") == "asan" else plain
     if rp.get("kind") == "scaling":
         # CPU time of the two sizes: super-linear if time grows clearly faster than size
-        a = finding_input({"gen": dict(rp["gen"], n=rp["n_small"])})
-        b = finding_input({"gen": dict(rp["gen"], n=rp["n_large"])})
+        key = "n" if rp["gen"]["kind"] == "repeat" else "depth"
+        a = finding_input({"gen": dict(rp["gen"], **{key: rp["n_small"]})})
+        b = finding_input({"gen": dict(rp["gen"], **{key: rp["n_large"]})})
         ra = run_case(impl, a, rp.get("mode", "parse"), cpu=30)
         rb = run_case(impl, b, rp.get("mode", "parse"), cpu=30)
         if ra["rc"] not in (0, 1) or rb["rc"] not in (0, 1, -24):
@@ -974,6 +1619,9 @@ def replay_finding(f, asan, plain):
         return ratio_t > 1.8 * ratio_n, "cpu %.3fs for %d bytes, %.3fs for %d bytes" % (ra["cpu"], len(a), rb["cpu"], len(b))
     data = finding_input(rp)
     r = run_case(impl, data, rp.get("mode", "parse"), rp.get("args", []), cpu=rp.get("cpu", 10))
+    if rp.get("kind") == "stderr-count":
+        n = r["err"].count(rp["pattern"])
+        return n >= rp["min"], "%d x '%s' on stderr within %d s of CPU (exit %d)" % (n, rp["pattern"], rp.get("cpu", 10), r["rc"])
     s = signature(r)
     if s is None:
         if rp.get("expect_stderr_empty") and r["err"].strip():
@@ -987,10 +1635,21 @@ def replay_finding(f, asan, plain):
 def replay(path):
     data = json.load(open(path))
     c = data["case"]
-    if "source_hex" in c:
-        asan = common.build_impl("asan")
-        r = run_case(asan, bytes.fromhex(c["source_hex"]), c.get("mode", "parse"), c.get("args", []), bool(c.get("big_stack")))
+    if "gen" in c or "source_hex" in c:
+        impl = common.build_impl(c.get("build", "asan"))
+        if "gen" in c:
+            g = c["gen"]
+            src = amp(g["kind"], g["depth"], bool(g.get("one_line")))
+        else:
+            src = bytes.fromhex(c["source_hex"])
+        r = run_case(impl, src, c.get("mode", "parse"), c.get("args", []), bool(c.get("big_stack")), stack=c.get("stack"))
         s = signature(r)
+        if s is None and c.get("signature") in ("slow", "timeout"):
+            m = re.search(r"CPU <= ([0-9.]+)s", c.get("demanded", ""))
+            if m and r["cpu"] > float(m.group(1)):
+                s = "slow"
+        print("input: %d bytes%s, %s build, mode %s" % (len(src), (" (%s x %d)" % (g["kind"], g["depth"])) if "gen" in c else "",
+                                                     c.get("build", "asan"), c.get("mode", "parse")))
         print("exit", r["rc"], "cpu %.3f" % r["cpu"], "signature", s)
         print(r["err"][:1500])
         return 1 if s else 0
